@@ -286,8 +286,8 @@ MODELS = {
  "C03": {"quick": _SM_Q, "thorough": _SM_T},
  "C05": {"quick": _SM_Q, "thorough": _SM_T},
  "C20": {"quick": _LIFE_Q, "thorough": _LIFE_T},
- "C02": {"quick": _SM_Q, "thorough": _SM_T},
- "C06": {"quick": _SM_Q, "thorough": _SM_T},
+ "C02": {"quick": [("TablePositionsMC.tla", "TP_mc4.cfg", 900)] + _SM_Q[:1], "thorough": [("TablePositionsMC.tla", "TP_mc4.cfg", 900), ("TablePositionsMC.tla", "TP_mc5.cfg", 3000)] + _SM_T[:2]},
+ "C06": {"quick": [("TablePositionsMC.tla", "TP_mc4.cfg", 900)] + _SM_Q[:1], "thorough": [("TablePositionsMC.tla", "TP_mc4.cfg", 900), ("TablePositionsMC.tla", "TP_mc5.cfg", 3000)] + _SM_T[:2]},
 }
 
 
@@ -298,7 +298,44 @@ def run_models(ck, prop, tier):
         ck.add_model(r, "exhaustive model check")
 
 
+def replay_case(prop, path, prefixes):
+    """Re-run the scenario stored in a replay file on the current tree and judge it again (engine randomness -- seats,
+    button, cards -- is not replayed, so a behaviour that needs a particular draw may need several runs)."""
+    case = json.load(open(path))["case"]
+    ctx = case.get("context", {})
+    sc = ctx.get("scenario")
+    build_harness()
+    d = scratch("replay")
+    if sc is None:
+        raise Inconclusive("the replay file carries no scenario (single-transition cases are self-contained: see its 'line')")
+    scf = os.path.join(d, "scenario.json")
+    json.dump([sc], open(scf, "w"))
+    hits = 0
+    for attempt in range(5):
+        out = os.path.join(d, "replay-%d.ndjson" % attempt)
+        cmd = [VH, "table", "--scenario", scf, "--out", out]
+        if ctx.get("scenario_via"):
+            cmd += ["--via", ctx["scenario_via"]]
+        src = case.get("source", "")
+        if "--actors" in src:
+            cmd += ["--actors"]
+        if "--bots" in src:
+            cmd += ["--bots"]
+        subprocess.run(cmd, capture_output=True, text=True, timeout=600, env=GOENV)
+        tr = tlc_trace("TableTrace.tla", "TableTrace.cfg", out, timeout=600, parts=1, by_trace=True)
+        mine = [v for v in tr["viol"] if any(v[0].startswith(p) for p in prefixes)]
+        if mine:
+            hits += 1
+            print("VIOLATION property=%s replay=%s" % (prop, path))
+            log("  reproduced on attempt %d: %s" % (attempt + 1, sorted(set(v[0] for v in mine))))
+            return 1
+    log("not reproduced in 5 runs of the scenario")
+    return 0
+
+
 def table_check(prop, tier, replay):
+    if replay:
+        return replay_case(prop, replay, TABLE_PROPS[prop][0])
     ck = Check(prop, tier)
     prefixes, extra = TABLE_PROPS[prop]
     pool = ThreadPoolExecutor(max_workers=1)
